@@ -354,7 +354,7 @@ def run(ctx):
     # exception ends the host process: their lookup-error handlers must still match the lookups they guard
     from .generic import handlers_match_lookups
     handlers_match_lookups(ctx, 'R04.10', ['common'], floor=1)
-    handlers_match_lookups(ctx, 'R04.11', ['pool'], floor=1,
+    handlers_match_lookups(ctx, 'R04.11', ['pool'], floor=0,
                            only=lambda f: f.cls is not None and f.cls.name in ('Pool', 'Supervisor'))
     # the loss must still be reported while the pool shuts down: the drain loop of the result handler
     from .c07 import r07_3
